@@ -101,6 +101,17 @@ def toModelEvent (srv : Server) : IEv → Except String Event
       | some i => .ok (.handle c i hint)
       | none => .error s!"consumed message is not at the head of the model queue (head: {reprStr (k.queue.head?.map (·.req))})"
 
+def outKind (o : Out) : String :=
+  ((reprStr o).splitOn " ").head!.replace "Hagall.Out." ""
+
+def evActor : IEv → Nat
+  | .connect c | .recv c _ | .handle c _ _ | .disconnect c => c
+  | _ => 0
+
+/-- constructor names of the messages present on one side only -/
+def diffKinds (a b : List Out) : List String :=
+  ((a.filter fun x => !b.any (·.sameAs x)) ++ (b.filter fun x => !a.any (·.sameAs x))).map outKind |>.eraseDups
+
 def sortNat (l : List Nat) : List Nat := (l.toArray.qsort (· < ·)).toList
 
 def processBlock (h : Hist) (b : Block) (outcome : Outcome) : Hist :=
@@ -125,7 +136,7 @@ def processBlock (h : Hist) (b : Block) (outcome : Outcome) : Hist :=
         { h with diff := some s!"event={evNo} kind=outcome topic={topic} :: model {reprStr o} implementation {reprStr outcome}" }
       else match diffDeliveries ds b.ds with
       | some c =>
-        { h with diff := some s!"event={evNo} kind=delivery topic={topic} conn={c} :: model {reprStr (inboxOf c ds)} implementation {reprStr (inboxOf c b.ds)}" }
+        { h with diff := some s!"event={evNo} kind=delivery topic={topic} conn={c} actor={evActor iev} outs={",".intercalate (diffKinds (inboxOf c ds) (inboxOf c b.ds))} :: model {reprStr (inboxOf c ds)} implementation {reprStr (inboxOf c b.ds)}" }
       | none =>
         let ms := sortNat (srv'.sessions.map (·.id))
         if ms != b.sessions then
